@@ -373,7 +373,10 @@ func (r *EngineRunner) concStress(clients, opsPer, nkeys int, seed uint64, withM
 	// a population of keys that nobody writes during the run (the index holds many entries per shard): every
 	// client reads them in between and must always find exactly the value they were given
 	staticKey := func(i int) []byte { return []byte(fmt.Sprintf("sk%05d", i)) }
-	staticVal := func(i int) []byte { return []byte(fmt.Sprintf("static-value-%05d", i*7+3)) }
+	// a few hundred bytes each: the population spreads over many blocks of a data file when the file limit allows
+	staticVal := func(i int) []byte {
+		return append([]byte(fmt.Sprintf("static-value-%05d", i*7+3)), bytes.Repeat([]byte{byte('a' + i%26)}, 150+i%97)...)
+	}
 	for i := 0; i < static; i++ {
 		if err := r.db.Put(staticKey(i), staticVal(i)); err != nil {
 			r.fail("C09", "Put of a static key failed: %v", err)
@@ -443,6 +446,30 @@ func (r *EngineRunner) concStress(clients, opsPer, nkeys int, seed uint64, withM
 				}
 			}
 		}(c)
+	}
+	if static > 0 {
+		// readers only: goroutines that do nothing but read keys nobody writes, all from the same few data files, while the
+		// writers above run (whatever a reader shares with another reader - a buffer, a cursor - shows here)
+		for g := 0; g < 6; g++ {
+			wg.Add(1)
+			go func(g int) {
+				defer wg.Done()
+				defer func() {
+					if e := recover(); e != nil {
+						r.failSync("C09", "panic in a reader: %v", e)
+					}
+				}()
+				rng := NewRng(seed + uint64(1000+g))
+				for j := 0; j < 400; j++ {
+					si := rng.Intn(static)
+					v, err := r.db.Get(staticKey(si))
+					if err != nil || !bytes.Equal(v, staticVal(si)) {
+						r.failSync("C08", "Get(%s) of a key nobody writes, among concurrent readers, returned %q, %v; the key holds %q throughout", staticKey(si), v, err, staticVal(si))
+						return
+					}
+				}
+			}(g)
+		}
 	}
 	if withMerge {
 		wg.Add(1)
